@@ -2,7 +2,7 @@ from ..streams import aero as aero_streams
 from ..oracles import c05
 
 MODELS = ["Aero"]
-STREAMS = [aero_streams.stream_points_and_mesh, aero_streams.stream_eval_mtx, aero_streams.stream_geometry_and_flow, aero_streams.stream_system]
+STREAMS = [aero_streams.stream_points_and_mesh, aero_streams.stream_eval_mtx, aero_streams.stream_geometry_and_flow, aero_streams.stream_system, aero_streams.stream_chain]
 ORACLES = [c05.oracle_reference]
 UNPROVED = ["sign pinning on a concrete one-panel wing (Gamma > 0, F_z > 0 at positive alpha) is checked by the independent solver, not by a theorem",
             "invertibility of the influence matrix is a hypothesis (the theorem is an equivalence between 'residual = 0' and 'tangent')"]
